@@ -3,9 +3,11 @@ pub mod drive;
 pub mod oracles;
 
 pub mod c01;
+pub mod c02;
+pub mod c03;
 
 use crate::engine::DynProperty;
 
 pub fn registry() -> Vec<Box<dyn DynProperty>> {
-    vec![Box::new(c01::C01)]
+    vec![Box::new(c01::C01), Box::new(c02::C02), Box::new(c03::C03)]
 }
